@@ -212,3 +212,12 @@ Proof. unfold vdistill, vnorm; simpl. apply get_Qred. Qed.
 Definition nonneg (v : vqip) : Prop := forall c, conserved c -> 0 <= cmp c v.
 Definition wet (v : vqip) : Prop :=
   nonneg v /\ (vol v <= 0 -> forall k, get (adds v) k == 0).
+
+(* the target volume of a rescaling may be replaced by an equal rational *)
+Lemma vchange_ext t v1 v2 c : v1 == v2 -> cmp c (vchange t v1) == cmp c (vchange t v2).
+Proof.
+  intros H. unfold vchange. rewrite !cmp_norm. destruct (Qlt_le_dec 0 (vol t)); destruct c as [|k|k]; cbn [cmp vol adds nons];
+    try reflexivity; try (rewrite H; reflexivity).
+  rewrite (get_map0 (fun x => x * (v1 / vol t))) by lra.
+  rewrite (get_map0 (fun x => x * (v2 / vol t))) by lra. rewrite H. reflexivity.
+Qed.
